@@ -25,19 +25,23 @@ CFG = {
         "proved through the refinement, not by construction."
     ),
     "level_note": (
-        "Trusted: Coq kernel + vm_compute; the hand-written model C03_Model.v (tied by the correspondence check; node-level "
-        "functions are the prototypes BTmodel/BTI/BTDs, which were validated shape-for-shape against the code, with the payload "
-        "carried along); the Go harness incl. its supervisor that turns a crashed / hung child process into a failing case; "
-        "the hooks VerifShape / VerifInner.  Partial: clone isolation is proved as an ownership discipline on an abstract heap "
-        "(write through one handle leaves every other handle's tree unchanged, invariant kept, Clone establishes it: "
-        "c03_write_isolated, c03_write_keeps_ownership, c03_clone_establishes_ownership); that btree.go's own heap-level write "
-        "functions with the shared free list follow that discipline is NOT proved (PENDING in C03_Props.v) and is carried by "
-        "the clone-program correspondence (independent values per handle after every write, ownership flags closed upwards).  "
-        "The concurrent clause is reduced to sequential histories by the lock-discipline lint (Insert/Update/UpdateOrInsert/"
-        "Delete/Get hold rw for the whole body) plus a run-time check with concurrent callers on disjoint key classes; "
-        "iterWalk takes RLock only after allocating its result slice (it touches no shared state before), which the "
-        "syntactic lint cannot express and is therefore an assumption.  The size bound 2^31 is a restriction of the theorems "
-        "(fuel), not of the code.  No axioms."
+        "Trusted: Coq kernel + vm_compute; the hand-written models C03_Model.v (functional, tied by the correspondence check; node-level "
+        "functions are the prototypes BTmodel/BTI/BTDs, validated shape-for-shape against the code, with the payload carried along) and "
+        "C03_Heap.v (the same write path on a store addr -> node with owner tags, mutableFor / mutableChild / split / insert / "
+        "growChildAndRemove / remove / root split and collapse / Clone / shared free list, proved equal to the functional model on "
+        "abstraction, so tied to the code through it; its allocation order and its treating a released node as gone are modelling "
+        "choices, not observed); the Go harness incl. its supervisor that turns a crashed / hung child process into a failing case; the "
+        "hooks VerifShape / VerifInner.  Clone isolation is now proved at full strength for the heap-level model (c03_clone_isolation, "
+        "c03_heap_history, c03_heap_ownership, c03_heap_Own, c03_free_list_sound): in every family of handles reachable from the empty "
+        "tree by Clone / ReplaceOrInsert / Delete / DeleteMin / DeleteMax each handle stands for the functional tree of the functional "
+        "model, an operation through one handle leaves every other handle's tree unchanged, a node owned by a handle's context is in no "
+        "other handle's tree, and newNode never hands out a node of any tree.  Not modelled at the heap level: Clear/reset, the reads, "
+        "concurrent use of a tree and its clone from different goroutines (one operation at a time).  The concurrent clause for the "
+        "wrapper is reduced to sequential histories by the lock-discipline lint (Insert/Update/UpdateOrInsert/Delete/Get hold rw for the "
+        "whole body) plus run-time checks with concurrent callers (disjoint key classes; one writer moving an entry with Update under "
+        "concurrent readers); iterWalk takes RLock only after allocating its result slice (it touches no shared state before), which the "
+        "syntactic lint cannot express and is therefore an assumption.  The size bound 2^31 is a restriction of the theorems (fuel), "
+        "not of the code.  No axioms."
     ),
     "rule": (
         "one case = one history (wrapper: 20-100 ops; inner tree: 25-150 ops per degree; sweep = all four / all ten scans from "
@@ -58,7 +62,7 @@ CFG = {
         "sync.RWMutex gives writers exclusion and readers a consistent tree (Go runtime)",
         "Item.Less is a strict weak order on keys (the harness's kv type compares integer keys)",
         "trees hold fewer than 2^31 items (the model's recursion fuel is proved sufficient below that size)",
-        "heap-level copy-on-write functions follow the ownership discipline of C03_Cow.v (not proved; checked on clone programs)",
+        "the heap-level model C03_Heap.v renders btree.go's pointer code faithfully (proved equal to the functional model; the functional model is what the correspondence check ties to the code, incl. per-node ownership flags being closed upwards)",
     ],
     "lint": [
         {"file": "ds/tree/btree.go", "recv": "BTree", "methods": ["Insert", "Update", "UpdateOrInsert", "Delete"], "lock": "rw", "mode": "lock"},
